@@ -6,7 +6,7 @@
 # by `Admitted` IN THE SCRATCH COPY and the file is compiled again, until it goes through.
 # (`Example`s - computed illustrations that mention the mutated function - are replaced too but listed separately.)
 # Expected: the baseline compiles with no broken theorem; every semantic mutant breaks exactly the listed
-# theorem(s); an untranslatable edit gives TRANSLATE-ERROR (exit 2).  The cases run in parallel.
+# theorem(s); an untranslatable edit gives TRANSLATE-ERROR (exit 3: the unit fails alone; 2: fatal).  The cases run in parallel.
 # usage: tools/acctie_selftest.sh        (needs the main tree built: coq/Proofs/DumpTie.vo, RestTie.vo)
 ROOT=$(cd "$(dirname "$0")/.." && pwd)
 COQ=$ROOT/coq
